@@ -3,7 +3,7 @@ import enc
 import fmtlib
 from fmtlib import layouts
 from purecheck import PureCheck
-from p_c10 import ALPHA, ATTS2, WID, cols
+from p_c10 import ALPHA, ALPHA_X, ATTS2, WID, cols
 
 
 class C11(PureCheck):
@@ -29,6 +29,14 @@ class C11(PureCheck):
             runs3 = [[list(t), list(a)] for t in fmtlib.texts_upto(ALPHA, 3) for a in ATTS2]
             for _ in range(1500):
                 pool.append([rng.choice(runs3) for _ in range(3)])
+        runsx = [[list(t), list(a)] for t in fmtlib.texts_upto(ALPHA_X, 3, 1) for a in ATTS2]
+        for _ in range(250 if tier == "quick" else 4000):
+            pool.append([rng.choice(runsx) for _ in range(rng.choice([1, 2, 2, 3]))])
+        # the same run several times in a row (what f * n and f + f build)
+        for r in [[list(t), list(a)] for t in fmtlib.texts_upto(ALPHA, 2, 1) for a in ATTS2]:
+            for n in (2, 3, 5):
+                pool.append([r] * n)
+                pool.append([[[97], fmtlib.PLAIN]] + [r] * n + [[[98], fmtlib.RED]])
         for f in pool:
             for c in (2, 3, 4, 5):
                 yield {"op": "wsplit", "f": f, "cols": c}
